@@ -9,4 +9,28 @@ REG = {
        "(keyword as member name, f(...)) are only checked for totality.",
   technique="TLA+ grammar specification model-checked with TLC; bounded-exhaustive replay of TLC states into the real parser",
   design="DESIGN.md section 4/C02"),
+ "C01": dict(
+  text="ParseTotal / GrammarSound hold in every state of the exhaustive enumeration of token sequences over the full token "
+       "alphabet, LexProgress / LexTiling in every state of the byte-level enumeration; every enumerated input is replayed into "
+       "the real parser under recover + watchdog and the outcome (complete tree or rejection) compared with the specification's.",
+  note="Trusted: TLC, the AST projection (nil children, missing tokens and absent lists are projected, never repaired). "
+       "Time proportionality is observed on the real code, not by TLC.",
+  technique="TLA+ lexer + grammar specification model-checked with TLC; bounded-exhaustive replay into the real parser",
+  design="DESIGN.md section 4/C01"),
+ "C12": dict(
+  text="FLexer's numeric-literal automaton and FDecimal.FromLiteral (exact digit-sequence arithmetic) define the number of "
+       "every spelling; TLC enumerates every string over the literal alphabet embedded in a formula, checks the lexical "
+       "invariants, and every case is replayed: rejection must coincide and each literal's value in the real evaluator must be "
+       "exactly the specification's <<sign, digits, exponent>>.",
+  note="Trusted: TLC, decimal.Big.Decompose for the exact projection of the evaluated literal.",
+  technique="TLA+ lexical specification + exact decimal arithmetic in TLA+, TLC enumeration replayed into the real parser/evaluator",
+  design="DESIGN.md section 4/C12"),
+ "C14": dict(
+  text="FLexer states the lexical grammar declaratively (trivia, longest-match operator table, numeric automaton, string "
+       "decoder, ES5 identifier classes); TLC checks Tiling, LongestMatch and Progress on every text of the bounded enumeration "
+       "and computes the class of every critical code point; the dumps are replayed token by token into the real Scanner "
+       "(public API) and into the parser, and all 1,114,112 code points are classified by the real predicates.",
+  note="Trusted: TLC, frozen ES5 tables (cross-checked against Unicode categories). Extents of malformed lexemes are unpinned.",
+  technique="TLA+ lexical specification model-checked with TLC; bounded-exhaustive replay into the real scanner and parser",
+  design="DESIGN.md section 4/C14"),
 }
